@@ -295,7 +295,16 @@ async fn post_tck_evaluate(params: Json<TckEvaluateParams>, data: web::Data<Appl
 /// Input values may be defined in `JSON` or `FEEL` context format.
 /// Result is always in JSON format.
 #[post("/evaluate/{model}/{invocable}")]
-async fn post_evaluate(params: web::Path<EvaluateParams>, request_body: String, data: web::Data<ApplicationData>) -> HttpResponse {
+async fn post_evaluate(params: web::Path<EvaluateParams>, request_body: Result<String, actix_web::Error>, data: web::Data<ApplicationData>) -> HttpResponse {
+  let request_body = match request_body {
+    Ok(request_body) => request_body,
+    Err(reason) => {
+      // the body could not be read as text (too large, not UTF-8, unknown encoding)
+      return HttpResponse::build(reason.as_response_error().status_code())
+        .content_type("application/json")
+        .body(ResultDto::<String>::error(err_internal_error(&reason.to_string())).to_string());
+    }
+  };
   if let Ok(workspace) = data.workspace.read() {
     match do_evaluate(&workspace, &params.into_inner(), &request_body) {
       Ok(value) => HttpResponse::Ok()
